@@ -161,6 +161,14 @@ def run(c: Check):
                                           expect_wf=dom_cases[i]["expect"]) for i in bad2[:5]]
     c.extra["disagreeing_cases"] = [dict(desc=coq_cases[i]["desc"], ops=coq_cases[i]["ops"],
                                          answers=coq_cases[i]["answers"]) for i in bad[:5]]
+    # directed probe: the init tasks of the task that produced an embedded output
+    pr = run_impl("drive_c03probe.py", {}, timeout=300)
+    c.count("probe:producer-init-tasks")
+    if pr["producer_jobs_differ"] and pr["embedders"][0] == pr["embedders"][1]:
+        c.violation("C03:collision:init-tasks-of-producing-task",
+                    "two submissions of a task that differ by their init tasks are two jobs, but what embeds their outputs gets "
+                    "one identifier (the task mark is hashed through the raw identifier of the task)",
+                    dict(pair=[], kind="init-tasks-of-producing-task", probe="harness/drive_c03probe.py", got=pr))
     c.level_assumptions = [
         "SHA-256 is a parameter H of every theorem; conclusions are 'the hashed streams differ' (so identifiers differ unless H collides)",
         "the claimed domain: strings, enum and type names without bytes < 0x20; dict types nested at most two levels; ints in the !q range",
